@@ -122,8 +122,14 @@ def o_check(case):
     before_bin = tx.as_bin() if serialisable else None
     if serialisable and before_bin != refser.ser_tx(m):
         _bad("c20:as_bin!=ref", "as_bin differs from the reference serialisation (C07 territory)")
+    # one case in three runs with the calling thread's decimal context set to a short precision (an application doing
+    # 8-digit coin arithmetic): the money limits are integers, whatever type the library stores them in
+    import decimal
+    ctx = [None, None, decimal.BasicContext, None, None, decimal.Context(prec=8), None, None, decimal.Context(prec=12, rounding=decimal.ROUND_DOWN)][
+        (len(m["ins"]) + len(m["outs"]) + sum(o["value"] for o in m["outs"])) % 9]
     try:
-        r = tx.check()
+        with decimal.localcontext(ctx) if ctx is not None else decimal.localcontext():
+            r = tx.check()
         got = "accept"
         if r is not None:
             _bad("check:return-value", "check() returned %r" % (r,))
